@@ -72,7 +72,8 @@ def _work(task):
     return out
 
 
-def verify_parallel(E, target, timeout_ms, props_name, nproc=None, here=None, ground=None, min_paths=24):
+def verify_parallel(E, target, timeout_ms, props_name, nproc=None, here=None, ground=None, min_paths=24,
+                    stop_at_first_failure=False):
     """Returns (function result skeleton, list of item records, undecided, errors)."""
     nproc = nproc or max(2, min(16, (os.cpu_count() or 4)))
     c = E.contracts[target]
@@ -116,6 +117,10 @@ def verify_parallel(E, target, timeout_ms, props_name, nproc=None, here=None, gr
                     errors += out['errors']
                     for rec in out['items']:
                         records.append(('remote', rec))
+                    if stop_at_first_failure and (out['undecided'] or any(r.get('result') != 'discharged' for r in out['items'])):
+                        # canary mode: one failing obligation is all that is needed
+                        pool.terminate()
+                        return info, records, undecided, errors, paths
                     fr = out.get('frontier') or []
                     if fr:
                         k = max(1, min(len(fr), 8))
